@@ -9,6 +9,8 @@ from .faults import FaultPlan
 from .fs import SimFS, make_osutils
 from .s3 import SimS3
 from .streams import (
+    DuckSeekableDest,
+    DuckSeekableSource,
     NonSeekableDest,
     NonSeekableSource,
     SeekableDest,
@@ -76,6 +78,7 @@ class World:
         self.cancel_events = []   # dicts
         self.io_submits = {}      # id(fileobj) -> [(offset, len)]
         self.live_chunk_readers = 0
+        self.thread_transfer = {}
         self.max_live_chunk_readers = 0
         self.dirty = False        # any fault fired or cancel issued so far
         self.abstract_states = set()
@@ -180,6 +183,34 @@ class World:
     def on_source_read(self, tidx, pos, n):
         t = self.transfers[tidx]
         t['src_bytes_read'] = t.get('src_bytes_read', 0) + n
+        cur = self.sim.current
+        if cur is not None and cur.role == 'submission':
+            # bytes a submission thread took off the user's stream: they sit in
+            # memory until they are handed over as a part body
+            t['sub_read'] = t.get('sub_read', 0) + n
+            self.thread_transfer[cur.tid] = tidx
+            self._check_upload_buffers()
+
+    def _check_upload_buffers(self):
+        """C11(a): part bodies alive, plus one for every stream upload whose
+        submission thread holds bytes beyond the parts it has handed over (the
+        initial pre-read of up to multipart_threshold bytes, out of which the
+        first parts are cut, is not a buffer of its own)."""
+        cfg = self.config
+        if cfg is None:
+            return
+        thr = cfg['multipart_threshold']
+        ahead = [x['idx'] for x in self.transfers
+                 if x.get('sub_read', 0) > max(thr, x.get('wrapped_total', 0))]
+        n = self.live_chunk_readers + len(ahead)
+        bound = cfg['max_in_memory_upload_chunks'] + cfg['max_submission_concurrency']
+        if n > bound:
+            self.violation(
+                'C11', 'upload-buffers',
+                '%d buffers of stream uploads exist in memory (%d part bodies + %d part(s) '
+                'read ahead off the stream by t%s) > max_in_memory_upload_chunks + '
+                'max_submission_concurrency = %d'
+                % (n, self.live_chunk_readers, len(ahead), ahead, bound))
 
     def on_dest_write(self, tidx, off, n):
         cfg = self.config
@@ -427,7 +458,8 @@ class World:
                 self.fs.files[t['path']] = bytearray(full)
                 t['fileobj'] = t['path']
             elif spec['src'] == 'seekable':
-                t['fileobj'] = SeekableSource(self, idx, full, off)
+                cls = DuckSeekableSource if spec.get('duck') else SeekableSource
+                t['fileobj'] = cls(self, idx, full, off)
             else:
                 t['fileobj'] = NonSeekableSource(self, idx, full,
                                                  short=spec.get('short_src', False))
@@ -451,7 +483,7 @@ class World:
                 self.fs.special[t['path']] = []
                 t['fileobj'] = t['path']
             elif d == 'seekable':
-                t['fileobj'] = SeekableDest(self, idx)
+                t['fileobj'] = (DuckSeekableDest if spec.get('duck') else SeekableDest)(self, idx)
             else:
                 t['fileobj'] = NonSeekableDest(self, idx)
         elif ty == 'copy':
@@ -803,6 +835,11 @@ class World:
             size = len(inner.getbuffer())
             cfg = world.config
             world.live_chunk_readers += 1
+            cur = world.sim.current
+            ti = world.thread_transfer.get(cur.tid) if cur is not None else None
+            if ti is not None and cur.role == 'submission':
+                tt = world.transfers[ti]
+                tt['wrapped_total'] = tt.get('wrapped_total', 0) + size
             if world.live_chunk_readers > world.max_live_chunk_readers:
                 world.max_live_chunk_readers = world.live_chunk_readers
             if cfg is not None:
